@@ -2125,7 +2125,9 @@ func (f *File) ReadFrom(r io.Reader) (int64, error) {
 			m, err2 := f.writeChunkAt(ch, b[:n], f.offset)
 			f.offset += int64(m)
 
-			if err == nil {
+			// A failed write must not be masked by the reader having hit EOF
+			// on the same (last, short) chunk.
+			if err2 != nil && (err == nil || errors.Is(err, io.EOF) || errors.Is(err, io.ErrUnexpectedEOF)) {
 				err = err2
 			}
 		}
